@@ -370,6 +370,13 @@ int main (int argc, char **argv)
         return violations ? 1 : 0;
       }
     sched_on = 1;
+    if (violations)
+      {
+        /* the solo runs already show a write to shared storage: every interleaving of such an operation is suspect; report and stop */
+        set_protection (0);
+        printf ("DONE harnesses=0 executions=%d scheduling_decisions=0 max_points=0 write_traps=%ld violations=%ld capped=0\n", NMENU * MAXT, write_traps, violations);
+        return 1;
+      }
     {
       long harnesses = 0;
       for (a = 0; a < NMENU; a++)
